@@ -66,8 +66,12 @@ def genesis_runs(tier, seed):
 def msgs_runs(tier, seed):
     if tier == "quick":
         return [{"profile": "msgs", "args": ["msgs", "-seed", str(seed * 10 + 1), "-hist", "3", "-steps", "150", "-signed"]},
-                {"profile": "collateral", "args": ["collateral", "-seed", str(seed * 10 + 2), "-hist", "2", "-steps", "250"]}]
-    return [{"profile": "msgs", "args": ["msgs", "-seed", str(seed * 100 + k), "-hist", "6", "-steps", "400", "-signed"]} for k in range(8)] + \
+                {"profile": "collateral", "args": ["collateral", "-seed", str(seed * 10 + 2), "-hist", "2", "-steps", "250"]},
+                {"profile": "rns", "args": ["rns", "-seed", str(seed * 10 + 3), "-hist", "4", "-steps", "300"]},
+                {"profile": "notif", "args": ["notif", "-seed", str(seed * 10 + 4), "-hist", "3", "-steps", "300"]}]
+    return [{"profile": "rns", "args": ["rns", "-seed", str(seed * 100 + 70 + k), "-hist", "8", "-steps", "500"]} for k in range(3)] + \
+           [{"profile": "notif", "args": ["notif", "-seed", str(seed * 100 + 80 + k), "-hist", "6", "-steps", "500"]} for k in range(2)] + \
+           [{"profile": "msgs", "args": ["msgs", "-seed", str(seed * 100 + k), "-hist", "6", "-steps", "400", "-signed"]} for k in range(8)] + \
            [{"profile": "collateral", "args": ["collateral", "-seed", str(seed * 100 + 50 + k), "-hist", "4", "-steps", "500"]} for k in range(4)]
 
 
@@ -89,6 +93,8 @@ PROPS = {
     "C11": {
         "runs": msgs_runs, "replay_runs": replay_runs, "monitor": mon_msgs.c11, "facts": facts.gen_msg_facts,
         "diff_relevant": lambda d: d["mod"] in ("msgtable", "oracle", "wasm") or
+            (d["mod"] == "rns" and (d["op"] == "makePrimary" or "primary" in d["fields"])) or
+            (d["mod"] == "notif" and d["op"] in ("block", "delete")) or
             (d["mod"] == "storage" and (d["op"] in ("initProvider", "shutdownProvider", "setProviderIP", "setProviderKeybase", "setProviderTotalSpace", "addClaimer", "removeClaimer", "deleteFile") or "providers" in d["fields"])),
         "trusted_base": BASE_TRUST + ["the message table is read from the running app's interface registry by reflection (every string field set to a distinct address) and rewritten to Canine/Generated/MsgFacts.lean on every run",
                                       "signature verification itself is the SDK ante handler's: exercised with real signed transactions (creator key accepted, other key rejected), not modelled"],
@@ -101,7 +107,7 @@ PROPS = {
         "assumptions": ["record kinds are identified by their store-key prefix", "oracle feeds are only populated when a history happens to create them (module covered by the same round trip)"],
     },
     "C10": {
-        "runs": ft_runs, "replay_runs": replay_runs, "monitor": mon_filetree.c10,
+        "facts": facts.gen_pure_fns, "runs": ft_runs, "replay_runs": replay_runs, "monitor": mon_filetree.c10,
         "diff_relevant": lambda d: d["mod"] == "filetree",
         "trusted_base": FT_TRUST,
         "assumptions": ["ownership is the chain's own predicate H('o'+address+H(signer)) = entry.owner (hash collisions out of scope)", "signers are well-formed bech32 addresses"],
@@ -120,7 +126,7 @@ PROPS = {
         "assumptions": ["parameters pass their validators (non-negative) and the three ratios sum to at most 100", "the stipend address is a valid, unblocked account and the mint denom is valid"],
     },
     "C18": {
-        "runs": notif_runs, "replay_runs": replay_runs, "monitor": mon_notif.C18, "stateful": True,
+        "facts": facts.gen_pure_fns, "runs": notif_runs, "replay_runs": replay_runs, "monitor": mon_notif.C18, "stateful": True,
         "diff_relevant": lambda d: d["mod"] == "notif",
         "trusted_base": BASE_TRUST + ["rns.Resolve and json.Valid are oracle inputs of the model (their results are recorded by the harness)",
                                       "raw store keys are split on '/' by the harness; addresses are bech32 and contain no '/'"],
@@ -133,7 +139,7 @@ PROPS = {
         "trusted_base": BASE_TRUST, "assumptions": RNS_ASSUME,
     },
     "C09": {
-        "runs": rns_runs, "replay_runs": replay_runs, "monitor": mon_rns.c09,
+        "facts": facts.gen_pure_fns, "runs": rns_runs, "replay_runs": replay_runs, "monitor": mon_rns.c09,
         "diff_relevant": lambda d: d["mod"] == "rns" and
             (bool(set(d["fields"]) & {"bids", "bank"}) or ("outcome" in d["fields"] and d["op"] in ("bid", "cancelBid", "acceptBid", "buy", "register"))),
         "trusted_base": BASE_TRUST, "assumptions": RNS_ASSUME,
@@ -209,7 +215,7 @@ STORAGE_PROPS = {
     "C03": dict(main="proofs", monitor=mon_storage.c03, facts=facts.gen_pure_fns,
                 rel=st(opfields={"block": ["files", "files2", "proofs", "providers", "bank", "panic"]})),
     "C04": dict(main="payments", monitor=mon_storage.c04, facts=facts.gen_pure_fns,
-                rel=st(ops=["buyStorage"], opfields={"postFile": ["bank", "gauges", "outcome"]})),
+                rel=st(ops=["buyStorage", "setParams"], opfields={"postFile": ["bank", "gauges", "outcome"]})),
     "C05": dict(main="storage", extra=("payments", "forms", "mint", "rns", "notif", "filetree"), monitor=mon_storage.c05, panic=True,
                 rel=st(fields=["panic"], ops=["block"], opfields={"postFile": ["outcome", "files"]})),
     "C07": dict(main="plans", monitor=mon_storage.c07,
@@ -220,7 +226,7 @@ STORAGE_PROPS = {
                 rel=st(fields=["attests", "reports"], ops=["attest", "report", "requestAttest", "requestReport"])),
     "C15": dict(main="collateral", monitor=mon_storage.c15,
                 rel=st(fields=["collateral", "params"], ops=["initProvider", "shutdownProvider", "setParams"])),
-    "C17": dict(main="storage", monitor=mon_storage.c17,
+    "C17": dict(main="storage", monitor=mon_storage.c17, facts=facts.gen_pure_fns,
                 rel=st(fields=["files", "files2", "proofs", "keyshape"], opfields={"block": ["files", "files2", "proofs"]})),
 }
 
